@@ -111,6 +111,14 @@ Section PreSrc.
     rewrite E. rewrite (check_top t Hw Hl).
     apply parse_prefix_correct; assumption.
   Qed.
+
+  Theorem prefix_source_any s toks t :
+    lex_tab false s = Some toks -> drop_comments toks = ttoks t -> twf t -> is_leaf t = false ->
+    parse_source c false s = Some (strip t).
+  Proof.
+    intros Hl E Hw Hleaf. unfold parse_source. rewrite Hl, E, (check_top t Hw Hleaf).
+    apply parse_prefix_correct; assumption.
+  Qed.
 End PreSrc.
 
 (* ---------- infix notation ---------- *)
@@ -173,6 +181,20 @@ Section InSrc.
     intros Hi E Hw Hk. unfold parse_source, lex_tab, lex.
     rewrite (lex_render is_letter_tab is_number_tab true items _ [] Hi (Forall_nil _)) by (cbn [app]; lia).
     rewrite E.
+    assert (Hchk : check_tokens true (itoks e) = true).
+    { unfold check_tokens. destruct (itoks e) eqn:Et.
+      - exfalso. pose proof (parse_infix_correct c e Hw) as P. rewrite Et in P. discriminate.
+      - rewrite <- Et. cbn [negb andb]. pose proof (check_itoks e Hk [] 0 true ltac:(lia)) as H. rewrite app_nil_r in H. rewrite H. reflexivity. }
+    rewrite Hchk. apply parse_infix_correct. exact Hw.
+  Qed.
+
+  (* the same for ANY source text whose tokens (comments dropped) are the expression's - whatever the layout, the glued
+     `!ident` spelling of infix notation included: the parsed tree depends on the token sequence only *)
+  Theorem infix_source_any s toks e :
+    lex_tab true s = Some toks -> drop_comments toks = itoks e -> iwf c e -> ichk e ->
+    parse_source c true s = Some (itree c e).
+  Proof.
+    intros Hl E Hw Hk. unfold parse_source. rewrite Hl, E.
     assert (Hchk : check_tokens true (itoks e) = true).
     { unfold check_tokens. destruct (itoks e) eqn:Et.
       - exfalso. pose proof (parse_infix_correct c e Hw) as P. rewrite Et in P. discriminate.
